@@ -126,7 +126,7 @@ def handle (be : Backend) (b : Build) (toks : List String) : String :=
       | .m822 => (match a.head? with | some e => .ok (is822Local s e) | none => .error Fault.oob)
       | .m5321 => .ok (is5321Local s)
       | .m5322 => .ok (is5322Local s)
-      | .m6531 => .ok (is6531Local b.l s)
+      | .m6531 => .ok (is6531LocalC b.l s)   -- the scanner as written; `is6531LocalC_eq` ties it to the form the theorems use
     "L " ++ showExceptInt rc
   | ["D", s, a] => "D " ++ showExceptInt (isAsciiDomain b.underscore (unhex s) (unhex a))
   | ["4", s, a] => "4 " ++ showExceptBool (isIpv4 (unhex s) (unhex a))
